@@ -51,6 +51,9 @@ def find_zerox(sig, peaks, troughs):
     >>> rises, decays = find_zerox(sig, peaks, troughs)
     """
 
+    # Integer-typed signals would wrap around when the flank midpoint is computed
+    sig = np.asarray(sig, dtype='float64')
+
     # Calculate the number of rises and decays
     n_rises = len(peaks)
     n_decays = len(troughs)
